@@ -333,7 +333,7 @@ func (c *Ctx) Finish() int {
 	if c.assume == nil {
 		out["assumptions"] = []string{}
 	}
-	if c.Only == "" {
+	if c.Only == "" && os.Getenv("VERIF_NO_EVIDENCE") == "" {
 		b, _ := json.MarshalIndent(out, "", " ")
 		os.MkdirAll(filepath.Join(Root, "evidence"), 0o755)
 		os.WriteFile(filepath.Join(Root, "evidence", c.Prop+".json"), b, 0o644)
